@@ -32,6 +32,16 @@ fn sysfn<const T: usize>(In(arg): In<Arg>, mut local: Local<u32>, mut c: Command
     arg.v * 100 + *local
 }
 
+/// type tag 2 is an exclusive system: its Local lives in exclusive-system param state, which Bevy re-creates on every
+/// `initialize`; the nested calls run at the end of the body (an exclusive system applies its effects itself)
+fn sysfn_x(In(arg): In<Arg>, world: &mut World, mut local: Local<u32>) -> u32
+{
+    *local += 1;
+    log(format!("body {} {} t{} v{} l{}", arg.id, arg.key, 2, arg.v, *local));
+    for k in arg.kids.iter() { exec(world, *k, &arg.nodes); }
+    arg.v * 100 + *local
+}
+
 fn exec(world: &mut World, id: u32, nodes: &Arc<HashMap<u32, Node>>)
 {
     match nodes[&id].clone()
@@ -39,13 +49,13 @@ fn exec(world: &mut World, id: u32, nodes: &Arc<HashMap<u32, Node>>)
         Node::Sc{ id, t, v, kids } =>
         {
             let arg = Arg{ id, key: format!("sys{t}"), v, kids, nodes: nodes.clone() };
-            let out = match t { 0 => syscall(world, arg, sysfn::<0>), 1 => syscall(world, arg, sysfn::<1>), _ => syscall(world, arg, sysfn::<2>) };
+            let out = match t { 0 => syscall(world, arg, sysfn::<0>), 1 => syscall(world, arg, sysfn::<1>), _ => syscall(world, arg, sysfn_x) };
             log(format!("ret {id} {out}"));
         }
         Node::Nm{ id, name, t, v, kids } =>
         {
             let arg = Arg{ id, key: format!("named{name}.{t}"), v, kids, nodes: nodes.clone() };
-            let out = match t { 0 => named_syscall(world, name, arg, sysfn::<0>), 1 => named_syscall(world, name, arg, sysfn::<1>), _ => named_syscall(world, name, arg, sysfn::<2>) };
+            let out = match t { 0 => named_syscall(world, name, arg, sysfn::<0>), 1 => named_syscall(world, name, arg, sysfn::<1>), _ => named_syscall(world, name, arg, sysfn_x) };
             log(format!("ret {id} {out}"));
         }
         Node::Sy{ id, sid, v, kids } =>
@@ -63,7 +73,7 @@ fn exec(world: &mut World, id: u32, nodes: &Arc<HashMap<u32, Node>>)
             let known = SIDS.lock().unwrap().as_ref().unwrap().contains_key(&sid);
             if !known
             {
-                let sysid = match t { 0 => spawn_system(world, sysfn::<0>), 1 => spawn_system(world, sysfn::<1>), _ => spawn_system(world, sysfn::<2>) };
+                let sysid = match t { 0 => spawn_system(world, sysfn::<0>), 1 => spawn_system(world, sysfn::<1>), _ => spawn_system(world, sysfn_x) };
                 SIDS.lock().unwrap().as_mut().unwrap().insert(sid, sysid);
             }
         }
